@@ -74,13 +74,14 @@ def check_family(ctx, aotools, N, rng):
     delta = float(10 ** rng.uniform(-3, 0.5))
     L0 = float(N * delta * 10 ** rng.uniform(-1.3, 1.7))     # L0 < delta ... L0 >> N delta
     base = (float(10 ** rng.uniform(-2, 0.5)), float(delta * 10 ** rng.uniform(-3, 0.8)))
-    variants = [base, (base[0] * float(rng.uniform(1.5, 4)), base[1]), (base[0], base[1] * float(rng.uniform(2, 6)))]
+    # each variant directly follows the base parameters (exercises even a one-entry cache with an incomplete key)
+    variants = [base, (base[0] * float(rng.uniform(1.5, 4)), base[1]), base, (base[0], base[1] * float(rng.uniform(2, 6)))]
     ctx.count("same_grid_families")
     shapes = [(N, N), (N, N)]
     fn = aotools.ft_phase_screen
     for vi, (r0, l0) in enumerate(variants):
         wit = {"N": N, "delta": delta, "r0": r0, "L0": L0, "l0": l0, "member_of_family": vi}
-        ctx.case("ft_phase_screen", key=(N, delta, r0, L0, l0), nontrivial=True, sample=wit)
+        ctx.case("ft_phase_screen", key=(N, delta, r0, L0, l0, vi), nontrivial=True, sample=wit)
         args = (r0, N, delta, L0, l0)
         g0 = ScriptedGenerator([])
         z = fn(*args, seed=g0)
